@@ -14,7 +14,7 @@ ENVQ = {}
 
 def cfgs(tier):
     if tier == "quick":
-        out = [Cfg(b, *t) for b in ALL_BACKENDS for t in ((4, 2, 4), (3, 3, 3), (2, 1, 2))]
+        out = [Cfg(b, *t) for b in ALL_BACKENDS for t in ((4, 2, 4), (3, 3, 3), (2, 1, 2), (4, 4, 4))]
         out += [Cfg("generic", 4, 2, 4, checker=True), Cfg("generic", 2, 2, 2, checker=True), Cfg("generic", 3, 1, 3, checker=True)]
         return out
     out = [Cfg(b, *t) for b in ALL_BACKENDS for t in share_tuples()]
